@@ -627,12 +627,13 @@ package channel
 //@   requires def != nil
 //@   ensures result1 == nil ==> result0 != nil
 
+// NewAsset returns a new variable to unmarshal an asset into (documented), i.e. not one handed out before.
 // CalcID of a registered backend is assumed to succeed with a non-zero id on validated parameters
 // (environment/cryptographic assumption; the sim backend's CalcID is examined under C17).
 //@ interface Backend
 //@   method NewAsset
 //@     requires recv != nil
-//@     ensures result != nil
+//@     ensures result != nil && fresh(payload(result))
 //@   method CalcID
 //@     requires recv != nil && arg0 != nil
 //@     ensures result1 == nil && result0 != Zero
@@ -968,16 +969,21 @@ package channel
 //@   wtokKind(w, p + 1) == tokkind("uint16") && wtokVal(w, p + 1) == len(x[0])
 //@ pred balRow(w io.Writer, p int, row []Bal, n int) = forall m int :: p <= m && m < p + n ==> wtokKind(w, m) == tokkind("bigint") && wtokVal(w, m) == val(row[m - p]) && bytelen(wtokVal(w, m)) <= 128
 
+// Balances: well-formed = non-empty, rectangular, every balance present and non-negative (the encoder panics on nil and on
+// negative big integers); equal = same dimensions, every decoded balance present with the same value.
+//@ pred balWF(x Balances) = nonNilBalances(x) && rectangular(x) && len(x) > 0 &&
+//@   forall i, j int :: 0 <= i && i < len(x) && 0 <= j && j < len(x[i]) ==> val(x[i][j]) >= 0
+//@ pred balEq(y Balances, x Balances) = len(y) == len(x) && forall i, j int :: 0 <= i && i < len(x) && 0 <= j && j < len(x[i]) ==>
+//@     len(y[i]) == len(x[i]) && y[i][j] != nil && val(y[i][j]) == val(x[i][j])
+//@ codec Balances wf balWF eq balEq by verifRoundTripBalances
 //@ func verifRoundTripBalances
 //@   tokenmodel
-//@   requires w0 != nil && r0 != nil && nonNilBalances(x) && rectangular(x) && len(x) > 0
-//@   requires forall i, j int :: 0 <= i && i < len(x) && 0 <= j && j < len(x[i]) ==> val(x[i][j]) >= 0
+//@   requires w0 != nil && r0 != nil && balWF(x)
 //@   modifies *
 //@   inlines (Balances).Encode, (*Balances).Decode
 //@   ensures encErr == nil && !rfail(r0) ==> decErr == nil
 //@   ensures encErr == nil && decErr == nil ==> !desync(r0) && rcount(r0) - old(rcount(r0)) == wcount(w0) - old(wcount(w0))
-//@   ensures encErr == nil && decErr == nil ==> len(y) == len(x) && forall i, j int :: 0 <= i && i < len(x) && 0 <= j && j < len(x[i]) ==>
-//@     len(y[i]) == len(x[i]) && y[i][j] != nil && val(y[i][j]) == val(x[i][j])
+//@   ensures encErr == nil && decErr == nil ==> balEq(y, x)
 //@   loop (Balances).Encode.1
 //@     record A = wcount(w)
 //@     invariant rec("A", 0) == old(wcount(w)) + 2 && balHeader(w, old(wcount(w)), b)
@@ -1005,3 +1011,83 @@ package channel
 //@     invariant balRow(w0, rec("A", i), x[i], len(x[0])) && rec("A", i + 1) == rec("A", i) + len(x[0])
 //@     invariant forall a, c int :: 0 <= a && a < i && 0 <= c && c < len(x[0]) ==> len((*b)[a]) == len(x[0]) && (*b)[a][c] != nil && val((*b)[a][c]) == val(x[a][c])
 //@     invariant forall c int :: 0 <= c && c < $i ==> (*b)[i][c] != nil && val((*b)[i][c]) == val(x[i][c])
+
+// Sub-allocations: ID, number of balances, the balances, number of index-map entries, the entries.
+//@ pred subWF(x SubAlloc) = nonNilBals(x.Bals)
+//@ pred subEq(y SubAlloc, x SubAlloc) = y.ID == x.ID && len(y.Bals) == len(x.Bals) && len(y.IndexMap) == len(x.IndexMap) &&
+//@   (forall i int :: 0 <= i && i < len(x.Bals) ==> y.Bals[i] != nil && val(y.Bals[i]) == val(x.Bals[i])) &&
+//@   (forall i int :: 0 <= i && i < len(x.IndexMap) ==> y.IndexMap[i] == x.IndexMap[i])
+//@ pred subHead(w io.Writer, p int, x SubAlloc) = wtokKind(w, p) == tokkind("arr32") && wtokVal(w, p) == x.ID &&
+//@   wtokKind(w, p + 1) == tokkind("uint16") && wtokVal(w, p + 1) == len(x.Bals) && len(x.Bals) <= MaxNumAssets
+//@ pred subBals(w io.Writer, p int, x SubAlloc, n int) = forall m int :: p + 2 <= m && m < p + 2 + n ==>
+//@   wtokKind(w, m) == tokkind("bigint") && wtokVal(w, m) == val(x.Bals[m - (p + 2)]) && bytelen(wtokVal(w, m)) <= 128
+//@ pred subIdxLen(w io.Writer, p int, x SubAlloc) = wtokKind(w, p + 2 + len(x.Bals)) == tokkind("uint16") && wtokVal(w, p + 2 + len(x.Bals)) == len(x.IndexMap)
+//@ pred subIdx(w io.Writer, p int, x SubAlloc, n int) = forall m int :: p + 3 + len(x.Bals) <= m && m < p + 3 + len(x.Bals) + n ==>
+//@   wtokKind(w, m) == tokkind("uint16") && wtokVal(w, m) == x.IndexMap[m - (p + 3 + len(x.Bals))]
+//@ codec SubAlloc wf subWF eq subEq by verifRoundTripSubAlloc
+//@ func verifRoundTripSubAlloc
+//@   tokenmodel
+//@   requires w0 != nil && r0 != nil && subWF(x)
+//@   modifies *
+//@   inlines (SubAlloc).Encode, (*SubAlloc).Decode
+//@   ensures encErr == nil && !rfail(r0) ==> decErr == nil
+//@   ensures encErr == nil && decErr == nil ==> !desync(r0) && rcount(r0) - old(rcount(r0)) == wcount(w0) - old(wcount(w0))
+//@   ensures encErr == nil && decErr == nil ==> subEq(y, x)
+//@   loop (SubAlloc).Encode.1
+//@     invariant wcount(w) == old(wcount(w)) + 2 + $i && subHead(w, old(wcount(w)), s) && subBals(w, old(wcount(w)), s, $i)
+//@   loop (SubAlloc).Encode.2
+//@     invariant wcount(w) == old(wcount(w)) + 3 + len(s.Bals) + $i && subHead(w, old(wcount(w)), s) && subBals(w, old(wcount(w)), s, len(s.Bals))
+//@     invariant subIdxLen(w, old(wcount(w)), s) && subIdx(w, old(wcount(w)), s, $i)
+//@   loop (*SubAlloc).Decode.1
+//@     modifies fresh, s.Bals, ghost("rcount"), ghost("desync"), ghost("rfail"), ghost("setbyteslen")
+//@     invariant !desync(r) && rcount(r) == old(rcount(r0)) + 2 + $i && s.ID == x.ID && len(s.Bals) == len(x.Bals)
+//@     invariant forall c int :: 0 <= c && c < $i ==> s.Bals[c] != nil && val(s.Bals[c]) == val(x.Bals[c])
+//@   loop (*SubAlloc).Decode.2
+//@     modifies fresh, s.IndexMap, ghost("rcount"), ghost("desync"), ghost("rfail"), ghost("setbyteslen")
+//@     invariant !desync(r) && rcount(r) == old(rcount(r0)) + 3 + len(x.Bals) + $i && s.ID == x.ID && len(s.Bals) == len(x.Bals) && len(s.IndexMap) == len(x.IndexMap)
+//@     invariant forall c int :: 0 <= c && c < len(x.Bals) ==> s.Bals[c] != nil && val(s.Bals[c]) == val(x.Bals[c])
+//@     invariant forall c int :: 0 <= c && c < $i ==> s.IndexMap[c] == x.IndexMap[c]
+
+// Allocations: three dimensions, per asset its backend id and its marshalled form, the balances (one summary token: lemma
+// verifRoundTripBalances), the sub-allocations (one summary token each: lemma verifRoundTripSubAlloc). sumOf(v): the summary
+// token of v; marshalOf(a)/unmarshalledFrom(b): what a's marshaler produced / what b's unmarshaler was given; rejected(r): a
+// third-party unmarshaler refused its bytes.
+//@ pred allocWF(x Allocation) = validAlloc(x) && nonNilAssets(x.Assets) && nonNilBalances(x.Balances) && nonNilLocked(x.Locked) && len(x.Backends) == len(x.Assets) &&
+//@   (forall i int :: 0 <= i && i < len(x.Assets) ==> has(backend, x.Backends[i]) && backend[x.Backends[i]] != nil && marshalLen(x.Assets[i]) <= 65535)
+//@ pred allocEq(y Allocation, x Allocation) = len(y.Assets) == len(x.Assets) && len(y.Backends) == len(x.Assets) && len(y.Locked) == len(x.Locked) &&
+//@   (forall i int :: 0 <= i && i < len(x.Assets) ==> y.Backends[i] == x.Backends[i] && y.Assets[i] != nil && unmarshalledFrom(y.Assets[i]) == marshalOf(x.Assets[i])) &&
+//@   balEq(y.Balances, x.Balances) && (forall l int :: 0 <= l && l < len(x.Locked) ==> subEq(y.Locked[l], x.Locked[l]))
+//@ pred allocHead(w io.Writer, p int, x Allocation) = wtokKind(w, p) == tokkind("uint16") && wtokVal(w, p) == len(x.Assets) &&
+//@   wtokKind(w, p + 1) == tokkind("uint16") && wtokVal(w, p + 1) == len(x.Balances[0]) && wtokKind(w, p + 2) == tokkind("uint16") && wtokVal(w, p + 2) == len(x.Locked)
+//@ pred allocAssets(w io.Writer, p int, x Allocation, n int) = forall k int :: 0 <= k && k < n ==>
+//@   wtokKind(w, p + 3 + 2 * k) == tokkind("uint32") && wtokVal(w, p + 3 + 2 * k) == x.Backends[k] &&
+//@   wtokKind(w, p + 4 + 2 * k) == tokkind("marshal") && wtokVal(w, p + 4 + 2 * k) == marshalOf(x.Assets[k])
+//@ pred allocBals(w io.Writer, p int, x Allocation) = wtokKind(w, p + 3 + 2 * len(x.Assets)) == tokkind("sum:channel.Balances") && wtokVal(w, p + 3 + 2 * len(x.Assets)) == sumOf(x.Balances)
+//@ pred allocLocked(w io.Writer, p int, x Allocation, n int) = forall m int :: p + 4 + 2 * len(x.Assets) <= m && m < p + 4 + 2 * len(x.Assets) + n ==>
+//@   wtokKind(w, m) == tokkind("sum:channel.SubAlloc") && wtokVal(w, m) == sumOf(x.Locked[m - (p + 4 + 2 * len(x.Assets))])
+//@ codec Allocation wf allocWF eq allocEq by verifRoundTripAllocation
+//@ func verifRoundTripAllocation
+//@   tokenmodel
+//@   requires w0 != nil && r0 != nil && allocWF(x)
+//@   modifies *
+//@   inlines (Allocation).Encode, (*Allocation).Decode
+//@   ensures encErr == nil && !rfail(r0) && !rejected(r0) ==> decErr == nil
+//@   ensures encErr == nil && decErr == nil ==> !desync(r0) && rcount(r0) - old(rcount(r0)) == wcount(w0) - old(wcount(w0))
+//@   ensures encErr == nil && decErr == nil ==> allocEq(y, x)
+//@   loop (Allocation).Encode.1
+//@     invariant wcount(w) == old(wcount(w)) + 3 + 2 * $i && allocHead(w, old(wcount(w)), a) && allocAssets(w, old(wcount(w)), a, $i)
+//@   loop (Allocation).Encode.2
+//@     invariant wcount(w) == old(wcount(w)) + 4 + 2 * len(a.Assets) + $i && allocHead(w, old(wcount(w)), a) && allocAssets(w, old(wcount(w)), a, len(a.Assets))
+//@     invariant allocBals(w, old(wcount(w)), a) && allocLocked(w, old(wcount(w)), a, $i)
+//@   loop (*Allocation).Decode.1
+//@     modifies fresh, a.Assets, a.Backends, ghost("rcount"), ghost("desync"), ghost("rfail"), ghost("rejected"), ghost("unmarshalledFrom"), ghost("unmarshalled")
+//@     invariant !desync(r) && rcount(r) == old(rcount(r0)) + 3 + 2 * $i && len(a.Assets) == len(x.Assets) && len(a.Backends) == len(x.Assets)
+//@     invariant numParts == len(x.Balances[0]) && numLocked == len(x.Locked)
+//@     invariant forall k int :: 0 <= k && k < $i ==> a.Backends[k] == x.Backends[k] && a.Assets[k] != nil && unmarshalledFrom(a.Assets[k]) == marshalOf(x.Assets[k])
+//@     invariant forall k int :: 0 <= k && k < $i ==> allocated(payload(a.Assets[k]))
+//@   loop (*Allocation).Decode.2
+//@     modifies fresh, a.Locked, ghost("rcount"), ghost("desync"), ghost("rfail"), ghost("rejected"), ghost("setbyteslen")
+//@     invariant !desync(r) && rcount(r) == old(rcount(r0)) + 4 + 2 * len(x.Assets) + $i && len(a.Assets) == len(x.Assets) && len(a.Backends) == len(x.Assets) && len(a.Locked) == len(x.Locked)
+//@     invariant forall k int :: 0 <= k && k < len(x.Assets) ==> a.Backends[k] == x.Backends[k] && a.Assets[k] != nil && unmarshalledFrom(a.Assets[k]) == marshalOf(x.Assets[k])
+//@     invariant balEq(a.Balances, x.Balances)
+//@     invariant forall l int :: 0 <= l && l < $i ==> subEq(a.Locked[l], x.Locked[l])
